@@ -94,6 +94,9 @@ def _probe(unyt):
             assert cached and derived, (sn, cached, derived)
             r.unit_system_id  # fill the memo: the edit has to reset it
             assert r._unit_system_id is not None
+            import copy as _copy
+
+            twin = _copy.copy(r)  # what Unit.copy() makes: it must stay attached to the same containers
             try:
                 f(r, sym)
                 raised = None
@@ -104,6 +107,9 @@ def _probe(unyt):
                 "cache_cleared": not (cached & set(r._unit_object_cache)),
                 "derived_purged": not (derived & set(r.lut)),
                 "memo_reset": r._unit_system_id is None,
+                "derived_in_place": twin._derived_symbols is r._derived_symbols,
+                "cache_in_place": twin._unit_object_cache is r._unit_object_cache,
+                "lut_in_place": twin.lut is r.lut,
             }
     ra = base()
     ida = ra.unit_system_id
@@ -111,6 +117,63 @@ def _probe(unyt):
     Unit("kvfoo", registry=rb)
     idb = rb.unit_system_id
     return cells, ida == idb
+
+
+def _probe_copy(unyt):
+    """does `Unit.copy()` hand out a registry object attached to the SAME table / string cache / derived set?
+    (a unit built from a sympy expression: its string is not in the string cache, so `copy()` is not
+    short-circuited by the cache hit in `Unit.__new__`)"""
+    import sympy
+    from unyt import Unit
+    from unyt.unit_registry import UnitRegistry
+
+    r = UnitRegistry()
+    c = Unit(sympy.Symbol("s"), registry=r).copy().registry
+    return {"distinct_object": c is not r, "lut": c.lut is r.lut, "cache": c._unit_object_cache is r._unit_object_cache,
+            "derived": c._derived_symbols is r._derived_symbols}
+
+
+def _rebinds(cls):
+    """(ast) the methods of `UnitRegistry`, other than the constructors of a NEW object, that assign
+    `self.lut`, `self._unit_object_cache` or `self._derived_symbols` (also as part of a tuple target, an
+    augmented or annotated assignment, a `del`, a `setattr`/`__dict__` access): a rebound container
+    separates the shallow copies `Unit.copy()` makes"""
+    names = ("lut", "_unit_object_cache", "_derived_symbols")
+    out = []
+    for fn in cls.body:
+        if not isinstance(fn, (ast.FunctionDef, ast.AsyncFunctionDef)) or fn.name in ("__init__", "__setstate__"):
+            continue
+        parents = {id(ch): n for n in ast.walk(fn) for ch in ast.iter_child_nodes(n)}
+        for n in ast.walk(fn):
+            tg = []
+            if isinstance(n, ast.Assign):
+                tg = n.targets
+            elif isinstance(n, (ast.AugAssign, ast.AnnAssign)):
+                tg = [n.target]
+            elif isinstance(n, ast.Delete):
+                tg = n.targets
+            elif isinstance(n, (ast.For, ast.comprehension)):
+                tg = [n.target]
+            elif isinstance(n, ast.withitem) and n.optional_vars is not None:
+                tg = [n.optional_vars]
+            elif isinstance(n, ast.NamedExpr):
+                tg = [n.target]
+            for t in tg:
+                for m in ast.walk(t):
+                    if isinstance(m, ast.Attribute) and any(_is_self_attr(m, a) for a in names) and not any(
+                            isinstance(p, ast.Subscript) and p.value is m for p in ast.walk(t)):
+                        out.append(f"{fn.name}: assigns self.{m.attr}")
+            if isinstance(n, ast.Call) and isinstance(n.func, ast.Name) and n.func.id in ("setattr", "delattr", "vars"):
+                if n.args and isinstance(n.args[0], ast.Name) and n.args[0].id == "self":
+                    out.append(f"{fn.name}: {n.func.id}(self, ...)")
+            if isinstance(n, ast.Attribute) and n.attr == "__dict__" and isinstance(n.value, ast.Name) and n.value.id == "self":
+                par = parents.get(id(n))
+                harmless = (isinstance(par, ast.Attribute) and par.attr == "get") or (
+                    isinstance(par, ast.Subscript) and par.value is n and isinstance(par.slice, ast.Constant)
+                    and isinstance(par.slice.value, str) and par.slice.value not in names)
+                if not harmless:
+                    out.append(f"{fn.name}: self.__dict__")
+    return out
 
 
 # ----------------------------------------------------------------------------------------------
@@ -255,6 +318,7 @@ def _ast_facts(repo):
     callers.append(bool(third) and bool(inner) and all(
         len(c.args) >= 3 and isinstance(c.args[2], ast.Name) and c.args[2].id == third for c in inner))
     out["callers_pass_the_set"] = all(callers)
+    out["rebinds"] = _rebinds(cls)
     return out
 
 
@@ -272,6 +336,26 @@ def generate(X):
     unconditional = (not facts["add"] and not facts["modify"] and not facts["remove"]
                      and facts["_lookup_unit_symbol_records"] and facts["callers_pass_the_set"])
     b = lambda x: "true" if x else "false"  # noqa: E731
+    d_in_place = all(v["derived_in_place"] for v in cells.values())
+    c_in_place = all(v["cache_in_place"] for v in cells.values())
+    l_in_place = all(v["lut_in_place"] for v in cells.values())
+    cp = _probe_copy(unyt)
+    never_rebound = not facts["rebinds"] and l_in_place
+    atext = (
+        X.header("UnytModel.RegistryC12Alias")
+        + "namespace Unyt.Generated\n\n"
+        + "/-- do `add` / `modify` / `remove` empty `_derived_symbols` and `_unit_object_cache` IN PLACE (a shallow\n"
+        + "    copy of the registry made before the edit is still attached to the same set / dict after it — every\n"
+        + "    cell of the probe matrix of tools/extract.d/c12_registry_cfg.py, refused edits included) -/\n"
+        + f"def registryACfg : Unyt.RegC12.ACfg := ⟨{b(d_in_place)}, {b(c_in_place)}⟩\n\n"
+        + "/-- (ast + probes) no method of `UnitRegistry` other than `__init__` / `__setstate__` assigns `self.lut`,\n"
+        + "    `self._unit_object_cache` or `self._derived_symbols`, and no probe saw the table rebound -/\n"
+        + f"def registryContainersNeverRebound : Bool := {b(never_rebound)}\n\n"
+        + "/-- `Unit.copy()` returns a unit on a NEW registry object attached to the same table, cache and set -/\n"
+        + f"def unitCopyShares : Bool := {b(all(cp.values()))}\n\n"
+        + "end Unyt.Generated\n"
+    )
+    X.write_if_changed(os.path.join(X.GEN, "RegistryC12Alias.lean"), atext)
     text = (
         X.header("UnytModel.RegistryC12")
         + "namespace Unyt.Generated\n\n"
@@ -295,6 +379,9 @@ def generate(X):
         "cfg": {"clearCache": clear, "purgeDerived": purge, "idSkipsDerived": id_skips, "memoResetLast": memo_last},
         "memo_reset": memo,
         "unconditional": unconditional,
+        "acfg": {"derivedInPlace": d_in_place, "cacheInPlace": c_in_place},
+        "containers_never_rebound": never_rebound,
+        "unit_copy": cp,
         "probe_cells": len(cells),
         "probe_cells_not_invalidating": bad,
         "ast": facts,
